@@ -435,7 +435,14 @@ func (w *World) doOrchPoll(in Intent) {
 	if len(msgs) == 0 {
 		return
 	}
-	w.Submit("claim", signer, in.Net, map[string]string{"chain": in.Chain, "val": strconv.Itoa(v.Idx), "nonces": strings.Join(nonces, ","), "true": "1"}, msgs...)
+	meta := map[string]string{"chain": in.Chain, "val": strconv.Itoa(v.Idx), "nonces": strings.Join(nonces, ","), "true": "1"}
+	if in.Mut == "then_fail" {
+		// the claims are followed, in the same transaction, by a message that fails: nothing of them may remain
+		meta["poison"] = "1"
+		w.St.Fault("claims_rolled_back")
+		msgs = append(msgs, &mhub2types.MsgCancelSendToExternal{Id: 1 << 40, Sender: signer.Addr.String(), ChainId: in.Chain})
+	}
+	w.Submit("claim", signer, in.Net, meta, msgs...)
 }
 
 // ---------------------------------------------------------------- orchestrators: signer
